@@ -318,12 +318,15 @@ def _units(shard):
         m = K > 2
         for M in mixes:
             V = [M[i, 0] * U[0] + M[i, 1] * U[1] for i in range(2)]
+            # rounding of any correct solver grows with the conditioning of the (re-mixed) input spectral matrix
+            cond = ref_residual(V, y)[2]
+            tolM = np.maximum(1e-4, 1e4 * 2.2e-16 * cond)
             for nm, solver in (("numeric", num), ("analytic", anl)):
                 r = np.asarray(solver(V, y, FS, **KW)[1])
                 d = np.abs(r ** 2 - base ** 2) / np.maximum(s00, 1e-300)
                 acc.out["evals"] += int(m.sum())
                 acc.out["nontrivial"] += int(m.sum())
-                if not np.all(d[m] <= 1e-4):
+                if not np.all(d[m] <= tolM[m]):
                     j = int(np.nonzero(m)[0][int(np.argmax(d[m]))])
                     acc.add(f"units/{kind}/{nm}", f"inputs re-mixed by {M.tolist()}: residual at bin {j} = {r[j]!r} but {base[j]!r} for the original inputs (sqrt(S00)={np.sqrt(s00[j])!r})")
     acc.out["samples"].append({"units": [M.tolist() for M in mixes]})
